@@ -66,6 +66,7 @@ def handle : DrvHandler := fun op args =>
       let marked ← jBool? (← jField? j "marked")
       let paused ← jBool? (← jField? j "paused")
       let deleted ← jBool? (← jField? j "deleted")
+      let exiting ← jBool? (← jField? j "exiting")   -- the memory is marked `operator_exiting` when the cycle begins
       let hs ← jArr? (← jField? j "handlers")
       let outs ← hs.mapM (fun h => do
         let id ← jStr? (← jField? h "id")
@@ -76,7 +77,8 @@ def handle : DrvHandler := fun op args =>
         let ex1 ← exOf? (← jField? h "ex1")
         let ex2 ← exOf? (← jField? h "ex2")
         let s : St := { now := now, run := pre, forever := forever, known := true,
-                        live := if pre.isSome then 1 else 0, spawns := 0, paused := none, killerDone := false }
+                        live := if pre.isSome then 1 else 0, spawns := 0, paused := none, killerDone := false,
+                        exitAt := if exiting then some now else none, goneAt := none }
         let exitAfter ← jBool? (← jField? h "exitAfter")
         let (s1, ds) := cycle c { matching, marked, paused, deleted, ex1, ex2 } s
         -- the instance ended inside the cycle but after its own turn: the cycle label followed by `exit`
@@ -97,7 +99,8 @@ def handle : DrvHandler := fun op args =>
       let rs ← (← jStrList? (← jField? j "reasons")).mapM reasonOf?
       let forever ← jBool? (← jField? j "forever")
       let i : Inst := { Inst.fresh 0 with reasons := rs, when := if rs.isEmpty then none else some 0 }
-      let s : St := { now := 0, run := some i, forever := forever, known := true, live := 1, spawns := 1, paused := none, killerDone := false }
+      let s : St := { now := 0, run := some i, forever := forever, known := true, live := 1, spawns := 1, paused := none, killerDone := false,
+                      exitAt := none, goneAt := none }
       match step { backoff := none, timeout := none, polling := 0 } s .exit with
       | some s' => some (ok (Json.mkObj [("forever", .bool s'.forever), ("running", .bool s'.run.isSome), ("live", .num (JsonNumber.fromNat s'.live))]))
       | none => some (err "not-enabled")
@@ -139,7 +142,8 @@ def handle : DrvHandler := fun op args =>
       let t ← jInt? (← jField? j "t")
       some (ok (Json.mkObj [("round", .bool (isRound p t)), ("byDue", .bool (decide (t ≤ firstDue p since))),
                             ("due", num (firstDue p since))]))
-  | "C09.variant", [] => some (ok (Json.mkObj [("treeGuarded", .bool treeGuarded), ("treeYielding", .bool treeYielding)]))
+  | "C09.variant", [] => some (ok (Json.mkObj [("treeGuarded", .bool treeGuarded), ("treeYielding", .bool treeYielding),
+                                                   ("treeStopsGone", .bool treeStopsGone), ("treeMarksExiting", .bool treeMarksExiting)]))
   | _, _ => none
 
 end Kopf.Drv.C09
